@@ -400,3 +400,47 @@ func init() {
 	})
 	techniques["C06"] = "exhaustiveness, cut reachability, forward flow of read results, reviewed arithmetic/guard references"
 }
+
+func init() {
+	register("C04", "Contextual tuples behave exactly like stored tuples", func(e *Engine, r *Reporter) {
+		ruleContextualAboveCaches(e, r)
+		ruleCombinedReaderOverrides(e, r)
+		ruleNoPersistence(e, r)
+		ruleV2ContextualPairing(e, r)
+		ruleMergeComparator(e, r)
+		ruleContextualTuplesValidated(e, r)
+	})
+	describe("C04", meta{
+		Decides:    "(1) the per-request reader is a CombinedTupleReader built from the request's contextual tuples on top of the shared layers, and no shared cache/iterator/bounded reader is ever built on top of one; (2) CombinedTupleReader has its own four read methods, each reading the contextual tuples; (3) the datastore's Write is reached only from the Write command with the request's writes/deletes; (4) every datastore read of the weighted-graph engine is paired with a contextual-tuple lookup, and the stored/contextual merge comparator is the reviewed one; (5) contextual tuples are validated before use (C18 rule) and are part of every decision-cache key (C24, C07 rules).",
+		NotDecided: "that merging yields the same answers as storing (duplicates, ordering, object-id and condition filters on the contextual side).",
+	})
+	techniques["C04"] = "who-may-construct / value-origin layering rules, method-set check, read-site pairing"
+}
+
+func init() {
+	register("C03", "Weighted-graph Check agrees with the default engine", func(e *Engine, r *Reporter) {
+		ruleV2Dispatch(e, r)
+		ruleV2Fallback(e, r)
+		ruleStatefulFilterLast(e, r)
+		ruleEdgeCacheVisited(e, r)
+		ruleV2ContextualPairing(e, r)
+		ruleMergeComparator(e, r)
+		ruleCloneComplete(e, r, []string{"internal/check"})
+	})
+	describe("C03", meta{
+		Decides:    "(1) every dispatch of the weighted-graph engine over edge/node kinds is total or fails closed (ErrPanicRequest is non-terminal, so the server falls back); (2) in Server.Check a non-terminal v2 error can only be answered through the default engine's Execute, the terminal set is the reviewed one, both reporting sites consult the detector and the detector knows every Err…InvalidRequest sentinel; (3) engine-internal invariants found defective or fragile while reading: stateful de-duplication filter last (F5), negative results cached only when visited-independent (F4), raw visited map only behind usesVisited, contextual pairing of every read, the stored/contextual merge comparator, complete request clones.",
+		NotDecided: "equality of decisions with the reference semantics for object subjects; that the breaking-change predicates never miss a divergence (a statement over all models).",
+	})
+	techniques["C03"] = "enum exhaustiveness, cut reachability of the fallback path, sentinel/detector table agreement"
+	register("C02", "Check and ListObjects answers do not depend on strategy or tuning", func(e *Engine, r *Reporter) {
+		ruleStrategyGuards(e, r)
+		ruleTuningNotInDecisions(e, r)
+		ruleSharedFillContext(e, r)
+		ruleStatefulFilterLast(e, r)
+	})
+	describe("C02", meta{
+		Decides:    "(1) every reference to a fast-path handler of the default engine is control-dependent on the typesystem predicate that makes the strategy valid (or on the strategy having been offered under it); (2) concurrency/breadth limits flow only into pool limits, capacities and options — never into a comparison or arithmetic that could cut results; (3) state shared between concurrent requests is filled under context.Background() (shared iterator), and the recursive strategy's filter chain keeps the de-duplication filter last (so it evaluates conditions like the default strategy).",
+		NotDecided: "that the weight-two and recursive algorithms compute the same set as the default one where they are offered; schedule independence.",
+	})
+	techniques["C02"] = "control-dependence (cut reachability) of strategy references; taint of tuning knobs into decisions"
+}
